@@ -724,7 +724,7 @@ def write_evidence(prop, tier, seed, results, obligations, n_obl, n_dis, bounded
     for r in results:
         for rep in r.get("report", []):
             reports.append(dict(rep, unit=r["unit"]))
-            fns.append(dict(unit=r["unit"], engine=r["engine"], item=rep["item"], src=rep["src"], sha256=rep["sha256"]))
+            fns.append(dict(unit=r["unit"], engine=r["engine"], item=rep.get("item", "?"), src=rep.get("src", ""), sha256=rep.get("sha256", "")))
         for f in r.get("functions_under_contract", []):
             fns.append(f)
     samples = [dict(name=o["name"], status=o["status"], text=o.get("text", ""), backend=o.get("backend"))
